@@ -311,7 +311,10 @@ func (e *Engine) assumeTyping(st *State, v Val) {
 	}
 	switch v.T.Underlying().(type) {
 	case *types.Basic, *types.Slice, *types.Pointer, *types.Map, *types.Chan:
-		e.assume("true", e.typingFact(v.T, v.S, st.wm))
+		// guarded by the path condition: the term may denote an ill-formed value on paths that never compute it
+		// (e.g. a re-slice whose bounds only make sense inside its branch); an unguarded fact would make those
+		// other paths infeasible and their proofs vacuous
+		e.assume(st.cond, e.typingFact(v.T, v.S, st.wm))
 	}
 }
 
@@ -1420,7 +1423,7 @@ func (e *Engine) convert(f *Frame, st *State, x Val, to types.Type, pos token.Po
 			if e.mode == "bv" {
 				bt = "(bv2nat " + bt + ")"
 			}
-			e.assume("true", fmt.Sprintf("(and (= (slen %s) (s.len %s)) (forall ((i Int)) (! (=> (and (<= 0 i) (< i (s.len %s))) (= (sbyte %s i) %s)) :pattern ((sbyte %s i)))))", s, x.S, x.S, s, bt, s))
+			e.assume(st.cond, fmt.Sprintf("(and (= (slen %s) (s.len %s)) (forall ((i Int)) (! (=> (and (<= 0 i) (< i (s.len %s))) (= (sbyte %s i) %s)) :pattern ((sbyte %s i)))))", s, x.S, x.S, s, bt, s))
 			return Val{T: to, S: s}
 		}
 	}
@@ -1629,6 +1632,24 @@ func (e *Engine) usesRunes() bool {
 // stableFieldKey: the load reads a pointer/map/chan field of a heap object, and no instruction of this function stores to
 // that field (of any object of the struct type).
 func (f *Frame) stableFieldKey(in *ssa.UnOp, l *Loc) (string, bool) {
+	// a captured variable that this closure never assigns: every load yields the same pointer
+	if fv, ok := in.X.(*ssa.FreeVar); ok {
+		switch in.Type().Underlying().(type) {
+		case *types.Pointer, *types.Map, *types.Chan:
+			stored := false
+			for _, b := range f.fn.Blocks {
+				for _, instr := range b.Instrs {
+					if st, ok := instr.(*ssa.Store); ok && st.Addr == ssa.Value(fv) {
+						stored = true
+					}
+				}
+			}
+			if !stored {
+				return f.prefix + "|fv|" + fv.Name(), true
+			}
+		}
+		return "", false
+	}
 	if l.Kind != LHeap || len(l.Path) != 1 || l.Path[0].Field < 0 {
 		return "", false
 	}
